@@ -1,0 +1,68 @@
+//go:build verif
+
+// Machine-checked contracts for package websockets (read by /verif/bin/gvc; comment-only, adds no declarations).
+package websockets
+
+// A Connection is reached from the session table by concurrently running handlers: the state of its channels can
+// be changed by other goroutines at any time (monotonically: a closed channel stays closed).
+//@ type Connection
+//@   shared
+
+// ---- message encoding of the shim protocol (C11) ----
+//@ func (*message).Serialize props(C11,C07)
+//@   requires m != nil
+//@   assigns nothing
+//@   ensures[C11:text-as-json-string] m.Type == 1 ==> typeis(r0, "string") && ifaceStr(r0) == string(m.Data)
+//@   ensures[C11:binary-as-one-element-array] m.Type != 1 ==> typeis(r0, "[]string") && len(ifaceStrs(r0)) == 1
+//@   ensures[C11:binary-raw-in-v0-base64-otherwise] m.Type != 1 ==> ifaceStrs(r0)[0] == ite(version == 0, string(m.Data), b64Of(m.Data))
+
+// SendClientMessage: a JSON string becomes a text message with those bytes, a one-element array a binary message
+// (raw in protocol 0, base64-decoded otherwise); exactly one message is queued per successful call, none on error.
+//@ func (*Connection).SendClientMessage props(C11,C12,C07)
+//@   requires conn != nil && conn.clientMessages != nil && conn.done != nil
+//@   ghost sends int = 0
+//@   send clientMessages
+//@     assert[C11:one-message-per-call] sends == 0 && arg0 == conn.clientMessages
+//@     assert[C11:text-payload-unchanged] !injectionEnabled && typeis(msg, "string") ==> arg1 != nil && arg1.Type == 1 && string(arg1.Data) == ifaceStr(msg)
+//@     assert[C11:binary-payload-unchanged] !injectionEnabled && typeis(msg, "[]interface {}") && arg1 != nil ==> arg1.Type == 2
+//@     |   && typeis(ifaceAnys(msg)[0], "string") && ite(conn.protocolVersion == 0, string(arg1.Data) == ifaceStr(ifaceAnys(msg)[0]), b64Of(arg1.Data) == ifaceStr(ifaceAnys(msg)[0]))
+//@     do sends = sends + 1
+//@   ensures[C11:queued-iff-success] (r0 == nil ==> sends == 1) && (r0 != nil ==> sends == 0)
+
+// ReadServerMessages: the reply is the serialisation, in receive order, of exactly the messages received in this call.
+//@ func (*Connection).ReadServerMessages props(C11,C12,C07)
+//@   requires conn != nil && conn.serverMessages != nil
+//@   ghost n int = 0
+//@   ghost k int = 0
+//@   ghost lastMsg *message = nil
+//@   ghost lastOK bool = false
+//@   ghost firstOK bool = false
+//@   ghost out map[int]ref
+//@   recv serverMessages
+//@     assert[C11:only-server-queue] arg0 == conn.serverMessages && n == k
+//@     assume ret1 ==> ret0 != nil
+//@     do firstOK = ite(n == 0 && !lastOK && k == 0, ret1, firstOK)
+//@     do lastMsg = ret0
+//@     do lastOK = ret1
+//@     do n = n + ite(ret1, 1, 0)
+//@   call (*message).Serialize
+//@     assert[C11:serialise-what-was-received-once-in-order] lastOK && arg0 == lastMsg && arg1 == conn.protocolVersion && k == n - 1
+//@     do out[k] = ret0
+//@     do k = k + 1
+//@   ensures[C11:reply-is-received-sequence] r1 == nil && r0 != nil ==> len(r0) == n && k == n && forall(i, 0, n, r0[i] == out[i])
+//@   ensures[C12:closed-and-drained-is-an-error] r1 != nil ==> n == 0 && len(r0) == 0
+//@   ensures[C11:nothing-dropped] k == n
+//@   loop 1
+//@     invariant[C11:collected] len(msgs) == k && k == n && n >= 1 && forall(i, 0, k, msgs[i] == out[i])
+
+// injectWebsocketMessage: nothing to inject returns the message itself; otherwise only keys that are not yet present
+// under the injection path are added, with the injected values, and the message type is kept.
+//@ func injectWebsocketMessage props(C11,C07)
+//@   ensures[C11:nil-message-is-an-error] msg == nil ==> r1 != nil && r0 == nil
+//@   ensures[C11:nothing-to-inject-is-identity] msg != nil && (injectionValues == nil || len(injectionValues) == 0) ==> r0 == msg && r1 == nil
+//@   ensures[C11:type-kept] r1 == nil && r0 != nil ==> r0.Type == old(msg.Type)
+//@   ensures[C11:error-returns-no-message] r1 != nil ==> r0 == nil
+//@   loop 2
+//@     assigns mapof(currJSONComponent)
+//@     invariant[C11:existing-keys-untouched] currJSONComponent != nil && forall_str(key2, pre(in(key2, currJSONComponent)) ==> in(key2, currJSONComponent) && currJSONComponent[key2] == pre(currJSONComponent[key2]))
+//@     invariant[C11:only-missing-injected-keys-added] forall_str(key2, in(key2, currJSONComponent) && !pre(in(key2, currJSONComponent)) ==> in(key2, injectionValues) && typeis(currJSONComponent[key2], "string") && ifaceStr(currJSONComponent[key2]) == injectionValues[key2])
